@@ -48,12 +48,17 @@ CLAIMS = {
         note='Trusted: stub packages in (1). Outside: job XML text, exec.py run on a node, more than 3 variants, SCM specifications inside the job specification (projects use checkoutScript only).'),
     'C08': dict(
         engine='X',
-        technique='CrossHair+z3 enumeration of hostile member lists through the real TarHelper/_tarExtractFilter and the stdlib tarfile extraction code (private module copy) on a stub file system; counterexamples replayed in a real temporary directory',
-        text='Confinement part: for every archive of 2 (quick) / 3 (thorough) members drawn from 16 hostile/benign names x 6 member types x symlink / hard link targets, with right or wrong pax version: after extraction or rejection '
+        technique='CrossHair+z3 enumeration of hostile member lists through the real TarHelper/_tarExtractFilter and the stdlib tarfile extraction code (private module copy) on a stub file system, counterexamples replayed in a real '
+                  'temporary directory; CrossHair+z3 enumeration of package trees and of damage positions through real upload / download invocations (real TarHelper pack + extract, real gzip, real hash gate) with a real file archive',
+        text='(1) Confinement: for every archive of 2 (quick) / 3 (thorough) members drawn from 16 hostile/benign names x 6 member types x symlink / hard link targets, with right or wrong pax version: after extraction or rejection '
              'no path outside the workspace content directory and the audit file was created, removed or modified (including through hard links), a wrong-format artifact is not extracted, and the audit file next to the '
-             'workspace stems from this artifact or does not exist. The lossless pack/extract round trip and rejection of truncated / bit-flipped byte streams are NOT covered (gzip/tar byte level).',
+             'workspace stems from this artifact or does not exist. (2) Lossless: for all 64 combinations of tree features (empty and nested directories, unicode / blank / shell-special / 120-character names, relative, absolute, '
+             'dangling and upward symbolic links, hard-linked files, permission bits of files and directories, empty and binary files) a package uploaded by one workspace and downloaded by another yields the identical tree '
+             '(types, permission bits, link texts, contents) and an unchanged audit trail, without running a build step. (3) Damage: for each artifact a downloader fetches, truncation to every 31st length (thorough: every length) '
+             'and inversion of every 31st byte (thorough: every byte), or replacement by garbage: the invocation fails or the results equal a local build, and a following local build in the same workspace is correct.',
         design_ref='DESIGN.md section 4, C08',
-        note='Trusted: SymFS path resolution model (component-wise, symlinks before ..); every counterexample is additionally replayed with the real file system. Outside: byte-level corruption, pack fidelity, post-download hash gate in the builder.'),
+        note='Trusted: SymFS path resolution model in (1) (every counterexample is additionally replayed with the real file system); the script model in (2), (3). Outside: device nodes / fifos in trees, sparse files, owner and time stamps, '
+             'a complete artifact of another Build-Id stored under this name (accepted by Bob, see DESIGN.md observations), transports other than the file backend.'),
     'C18': dict(
         engine='X',
         technique='CrossHair+z3 enumeration of every package DAG in the bound (edge kinds symbolic) through the real path query evaluator (real grammar, real sqlite graph) against an independent forward reference semantics',
